@@ -407,6 +407,41 @@ pub fn c8() -> OptionParser<(bool, (bool, Alt8))> {
     construct!(v, mid).to_options()
 }
 
+#[derive(Debug, Clone, PartialEq)]
+pub enum Amb {
+    Arg(u32),
+    Flag,
+}
+
+/// a short name that is both a flag and an argument (ambiguous clusters), optional, next to a switch
+pub fn am() -> OptionParser<(Option<Amb>, bool)> {
+    let aa = short('a').long("arg").argument::<u32>("A").map(Amb::Arg);
+    let af = short('a').long("flag").req_flag(Amb::Flag);
+    let a = construct!([aa, af]).optional();
+    let b = short('b').long("bee").switch();
+    construct!(a, b).to_options()
+}
+
+fn c9_remote() -> OptionParser<Cmd1> {
+    let add = c1_add().command("add");
+    construct!([add]).to_options()
+}
+
+fn c9_stash() -> OptionParser<Cmd1> {
+    let add = c1_rm().command("add");
+    let stash = c1_add().command("stash");
+    construct!([add, stash]).to_options()
+}
+
+/// the same command name at several places of the tree: `remote add`, `stash add`, `stash stash`
+pub fn c9() -> OptionParser<(bool, Cmd1)> {
+    let v = short('v').long("verbose").switch();
+    let remote = c9_remote().command("remote");
+    let stash = c9_stash().command("stash");
+    let cmd = construct!([remote, stash]);
+    construct!(v, cmd).to_options()
+}
+
 /// switch declared before a repeated argument (the switch's consumption precedes the loop)
 pub fn g4() -> OptionParser<(bool, Vec<u32>, u32)> {
     let a = short('a').long("alpha").switch();
@@ -452,12 +487,13 @@ pub fn a4() -> OptionParser<(Vec<Flag3>, bool)> {
 
 use std::ffi::OsString;
 
-/// switch -a, OsString argument -b/--beta (optional), OsString positionals
-pub fn pt() -> OptionParser<(bool, Option<OsString>, Vec<OsString>)> {
+/// switch -a, switch with a two-byte short name, OsString argument -b/--beta (optional), OsString positionals
+pub fn pt() -> OptionParser<(bool, bool, Option<OsString>, Vec<OsString>)> {
     let a = short('a').long("alpha").switch();
+    let e = short('\u{e9}').long("eacute").switch();
     let b = short('b').long("beta").argument::<OsString>("B").optional();
     let xs = positional::<OsString>("XS").many();
-    construct!(a, b, xs).to_options()
+    construct!(a, e, b, xs).to_options()
 }
 
 
